@@ -64,6 +64,7 @@ static void h_run_case(hcase_t* c) {
   }
   rt_reg(ch->buffer, sizeof(void*) << p2, 501, 2);
   rt_reg(nodes, sizeof nodes, 100, 8);
+  rt_reg_rest(ch, sizeof *ch + (sizeof(void*) << p2), 14900);   /* search mode only: fields the model does not know */
   rt_name(nodes, sizeof nodes, 1, sizeof nodes[0]);
   t1_run(n, prog, c->sched, c->nsched, dmax);
   rt_print_trace();
